@@ -1088,6 +1088,20 @@ func (kcp *KCP) SetMtu(mtu int) int {
 		return -1
 	}
 
+	// segments already queued were cut for the old mss; flush cannot emit a
+	// segment larger than the new MTU, so such a value is refused
+	mss := mtu - IKCP_OVERHEAD
+	for seg := range kcp.snd_queue.ForEach {
+		if len(seg.data) > mss {
+			return -1
+		}
+	}
+	for seg := range kcp.snd_buf.ForEach {
+		if len(seg.data) > mss {
+			return -1
+		}
+	}
+
 	kcp.mtu = uint32(mtu)
 	kcp.mss = kcp.mtu - IKCP_OVERHEAD
 	kcp.buffer = make([]byte, (mtu+IKCP_OVERHEAD)*3)
